@@ -169,7 +169,7 @@ def make_diagonal(D, offset=0, axis1=0, axis2=1):
 
     # We use a trick: calling np.diagonal returns a view on the original array,
     # so we can modify it in-place. (only valid for numpy version >= 1.10.)
-    new_array = _np.zeros(D.shape + (D.shape[-1],))
+    new_array = _np.zeros(D.shape + (D.shape[-1],), dtype=D.dtype)
     new_array_diag = _np.diagonal(new_array, offset=0, axis1=-1, axis2=-2)
     new_array_diag.flags.writeable = True
     new_array_diag[:] = D
